@@ -54,6 +54,8 @@ def check_program(arg: tuple[dict[str, Any], list, int, int]) -> list[dict]:
             break
         for r in range(4):
             for i in ids:
+                if not bucket.participates(r, calls[i]):
+                    continue
                 a = res['results'][r].get(i)
                 b = twin['results'][r].get(i)
                 c = calls[i]
@@ -155,6 +157,11 @@ def main(tier: str, seed: int) -> int:
                  max_calls=5, simulate=30),
             dict(cap=100000, types=T, roles=['world', 'row', 'col', 'self'],
                  max_calls=6, simulate=25),
+            # rank-asymmetric traffic: some calls are made by one instance of
+            # the row / column groups only
+            dict(cap=2500, types=small_types, roles=['row', 'col'],
+                 max_calls=4, simulate=60,
+                 insts=('both', 'first', 'second')),
         ]
     else:
         scopes = [
@@ -168,13 +175,18 @@ def main(tier: str, seed: int) -> int:
                  max_calls=7, simulate=500),
             dict(cap=2100, types=T, roles=['world', 'row', 'col', 'self'],
                  max_calls=7, simulate=500),
+            dict(cap=2500, types=small_types, roles=['row', 'col'],
+                 max_calls=3, insts=('both', 'first', 'second')),
+            dict(cap=1000, types=T, roles=['world', 'row', 'col'],
+                 max_calls=6, simulate=800,
+                 insts=('both', 'first', 'second')),
         ]
     with ThreadPoolExecutor(max_workers=3) as ex:
         runs = list(ex.map(
             lambda s: bucket.gen_programs(
                 s['cap'], 'group', 'split', s['types'], s['roles'],
                 s['max_calls'], simulate=s.get('simulate'), seed=seed,
-                workers=5), scopes))
+                workers=5, insts=s.get('insts', ('both',))), scopes))
     jobs = []
     states = trans = 0
     rng = random.Random(seed)
